@@ -35,18 +35,20 @@ type c20Phase struct {
 }
 
 type c20Spec struct {
-	Names   []string   `json:"names"`
-	Spell   []string   `json:"spelled_as"` // how each name is written in FromCache/CleanCache calls (always the same way within a run)
-	HasInc  []bool     `json:"has_inc"`
-	Loaders []string   `json:"loaders"`
-	Shared  bool       `json:"sets_share_one_loader_object"`
-	Disk    *DiskSpec  `json:"disk"`
-	Disk1   *DiskSpec  `json:"disk1,omitempty"` // second loader's disk (NLoad == 2)
-	NLoad   int        `json:"loaders_per_set"`
-	Phases  []c20Phase `json:"phases"`
-	Strat   string     `json:"strategy"`
-	strat   Strategy
-	Plan    []FaultSpec `json:"fault_plan,omitempty"`
+	Names       []string   `json:"names"`
+	Spell       []string   `json:"spelled_as"` // how each name is written in FromCache/CleanCache calls (always the same way within a run)
+	HasInc      []bool     `json:"has_inc"`
+	Ext         []bool     `json:"extends_base,omitempty"` // the second file is a shared parent (extends "base.tpl") instead of an include
+	SameSetName bool       `json:"sets_have_equal_names,omitempty"`
+	Loaders     []string   `json:"loaders"`
+	Shared      bool       `json:"sets_share_one_loader_object"`
+	Disk        *DiskSpec  `json:"disk"`
+	Disk1       *DiskSpec  `json:"disk1,omitempty"` // second loader's disk (NLoad == 2)
+	NLoad       int        `json:"loaders_per_set"`
+	Phases      []c20Phase `json:"phases"`
+	Strat       string     `json:"strategy"`
+	strat       Strategy
+	Plan        []FaultSpec `json:"fault_plan,omitempty"`
 }
 
 type c20Res struct {
@@ -94,10 +96,34 @@ func (sp *c20Spec) spelling(set, name, variant int) string {
 	return sp.Spell[name]
 }
 
+// second names the file a top-level template pulls in: its own include, or the parent
+// that all extending names share.
+func (sp *c20Spec) second(i int) string {
+	if i < len(sp.Ext) && sp.Ext[i] {
+		return "base.tpl"
+	}
+	return fmt.Sprintf("inc%d.tpl", i)
+}
+
+func c20SecondContent(file string, ver int, corrupt bool) string {
+	if file == "base.tpl" {
+		if corrupt {
+			return fmt.Sprintf("(basev%d:{%% block b %%}{%% endblock %%}{%% endfor %%}", ver)
+		}
+		return fmt.Sprintf("(basev%d:{%% block b %%}{%% endblock %%})", ver)
+	}
+	if corrupt {
+		return fmt.Sprintf("(%sv%d{%% endfor %%}", strings.TrimSuffix(file, ".tpl"), ver)
+	}
+	return fmt.Sprintf("(%sv%d)", strings.TrimSuffix(file, ".tpl"), ver)
+}
+
 func c20TopContent(name string, ver, disk int, hasInc bool, inc string, corrupt bool) string {
 	// the part after the marker renders differently under the set's TrimBlocks option
 	s := fmt.Sprintf("[%sv%d@%d:{{ setname }}]{%% if true %%}\nT{%% endif %%}", name, ver, disk)
-	if hasInc {
+	if hasInc && inc == "base.tpl" {
+		s = `{% extends "base.tpl" %}{% block b %}` + s + "{% endblock %}"
+	} else if hasInc {
 		s += `{% include "` + inc + `" %}`
 	}
 	if corrupt {
@@ -123,16 +149,19 @@ func c20Gen(tp *Tapes) *c20Spec {
 		sp.Spell = append(sp.Spell, []string{"", "", "./", "zz/../"}[g.Draw(4)]+name)
 		hasInc := g.Draw(3) == 1
 		sp.HasInc = append(sp.HasInc, hasInc)
+		sp.Ext = append(sp.Ext, hasInc && g.Draw(2) == 1)
 		absent0 := g.Draw(8) == 7
-		sp.Disk.Files[name] = []FileVer{{Content: c20TopContent(name, 0, 0, hasInc, fmt.Sprintf("inc%d.tpl", i), false), Absent: absent0}}
+		sp.Disk.Files[name] = []FileVer{{Content: c20TopContent(name, 0, 0, hasInc, sp.second(i), false), Absent: absent0}}
 		if sp.NLoad == 2 {
 			// where the name lives at first: first disk only, second only, or both
 			place := g.Draw(3)
 			sp.Disk.Files[name][0].Absent = absent0 || place == 1
-			sp.Disk1.Files[name] = []FileVer{{Content: c20TopContent(name, 0, 1, hasInc, fmt.Sprintf("inc%d.tpl", i), false), Absent: place == 0}}
+			sp.Disk1.Files[name] = []FileVer{{Content: c20TopContent(name, 0, 1, hasInc, sp.second(i), false), Absent: place == 0}}
 		}
 		if hasInc {
-			sp.Disk.Files[fmt.Sprintf("inc%d.tpl", i)] = []FileVer{{Content: fmt.Sprintf("(inc%dv0)", i)}}
+			if _, has := sp.Disk.Files[sp.second(i)]; !has {
+				sp.Disk.Files[sp.second(i)] = []FileVer{{Content: c20SecondContent(sp.second(i), 0, false)}}
+			}
 		}
 	}
 	nSets := 1 + g.Draw(2)
@@ -141,6 +170,7 @@ func c20Gen(tp *Tapes) *c20Spec {
 	}
 	sp.strat = pickStrategy(g)
 	sp.Strat = sp.strat.String()
+	sp.SameSetName = nSets > 1 && g.Draw(2) == 1
 	if nSets > 1 && g.Draw(2) == 1 {
 		// both sets are handed the very same loader object (a common deployment)
 		sp.Shared = true
@@ -219,7 +249,7 @@ func c20Gen(tp *Tapes) *c20Spec {
 			file := sp.Names[ni]
 			isInc := false
 			if sp.HasInc[ni] && g.Draw(3) == 2 {
-				file = fmt.Sprintf("inc%d.tpl", ni)
+				file = sp.second(ni)
 				isInc = true
 			}
 			ed := 0
@@ -241,9 +271,9 @@ func c20Gen(tp *Tapes) *c20Spec {
 				ev.File, ev.Ver = file, nv
 				c := ""
 				if isInc {
-					c = fmt.Sprintf("(inc%dv%d{%% endfor %%}", ni, nv)
+					c = c20SecondContent(file, nv, true)
 				} else {
-					c = c20TopContent(file, nv, ed, sp.HasInc[ni], fmt.Sprintf("inc%d.tpl", ni), true)
+					c = c20TopContent(file, nv, ed, sp.HasInc[ni], sp.second(ni), true)
 				}
 				disks[ed].Files[file] = append(vers, FileVer{Content: c, Corrupt: true})
 			default:
@@ -251,9 +281,9 @@ func c20Gen(tp *Tapes) *c20Spec {
 				ev.File, ev.Ver = file, nv
 				c := ""
 				if isInc {
-					c = fmt.Sprintf("(inc%dv%d)", ni, nv)
+					c = c20SecondContent(file, nv, false)
 				} else {
-					c = c20TopContent(file, nv, ed, sp.HasInc[ni], fmt.Sprintf("inc%d.tpl", ni), false)
+					c = c20TopContent(file, nv, ed, sp.HasInc[ni], sp.second(ni), false)
 				}
 				disks[ed].Files[file] = append(vers, FileVer{Content: c})
 			}
@@ -487,7 +517,11 @@ func (c20Checker) Run(tp *Tapes, opt RunOpt) *Outcome {
 		if !sp.Shared {
 			l = mkStack(i, sp.Loaders[i])
 		}
-		sets[i] = pongo2.NewSet(fmt.Sprintf("S%d", i), l...)
+		setName := fmt.Sprintf("S%d", i)
+		if sp.SameSetName {
+			setName = "S" // a set's name is a label; two sets may well carry the same one
+		}
+		sets[i] = pongo2.NewSet(setName, l...)
 		sets[i].Globals["setname"] = fmt.Sprintf("S%d", i)
 		// distinguishing configuration per set (isolation oracle): a ban and an option
 		if err := sets[i].BanTag([]string{"lorem", "templatetag"}[i%2]); err != nil {
@@ -836,7 +870,9 @@ func (c20Checker) Run(tp *Tapes, opt RunOpt) *Outcome {
 				} else {
 					exp += "\nT"
 				}
-				if sp.HasInc[op.Name] {
+				if sp.HasInc[op.Name] && sp.Ext[op.Name] {
+					exp = fmt.Sprintf("(basev%d:%s)", incVer, exp)
+				} else if sp.HasInc[op.Name] {
 					exp += fmt.Sprintf("(inc%dv%d)", op.Name, incVer)
 				}
 				nGets := len(w.Gets)
@@ -871,7 +907,7 @@ func (c20Checker) Run(tp *Tapes, opt RunOpt) *Outcome {
 	ph := newHasher()
 	ph.str(fmt.Sprintf("%v%v", sp.Names, sp.Spell))
 	ph.str(fmt.Sprintf("%+v", sp.Phases))
-	ph.str(fmt.Sprintf("%v%v%v%d", sp.Loaders, sp.HasInc, sp.Shared, sp.NLoad))
+	ph.str(fmt.Sprintf("%v%v%v%d%v%v", sp.Loaders, sp.HasInc, sp.Shared, sp.NLoad, sp.Ext, sp.SameSetName))
 	out.ProgHash = uint64(ph)
 	th := hasher(out.TraceHash)
 	th.u64(out.ProgHash)
